@@ -28,8 +28,8 @@ func init() {
 				Flavours: []string{"plain", "race", "cover"},
 				Blocks:   16,
 				Procs:    16,
-				Rule: "case = one input byte string. Exhaustive: every string of length <= 7 (<= 8 thorough) over 7 bytes: one representative per tokenizer class (blank, newline, backslash, single quote, double quote) and two 'other' bytes; plus every single byte 0..255 in five contexts (classification of all byte values), inputs of 4090..65537 bytes whose tokens and quoted spans cross buffer boundaries, and random inputs up to 200 bytes over a wider alphabet (tab, CR, VT, FF, NBSP, $, `, #, non-ASCII). " +
-					"Per input: Split's fields and completeness flag vs the reference; Scanner over a one-byte-at-a-time reader and over random fragmentations (Next/Text, Complete after the last token, Next stays false and Err stays io.EOF afterwards); Each with early stop; Scanner.Split; Rest called after the k-th token for every k must yield exactly input[offset_k:] and Next must then stay false; a reader that fails with a non-EOF error must surface through Err. Complete inputs without other metacharacters and without unquoted newlines are also split by dash and 'bash +B' (length <= 6 exhaustive). Reset reuse and the pooled Split run concurrently under -race. " +
+				Rule: "case = one input byte string. Exhaustive: every string of length <= 7 (<= 9 thorough) over 7 bytes: one representative per tokenizer class (blank, newline, backslash, single quote, double quote) and two 'other' bytes; plus every single byte 0..255 in five contexts (classification of all byte values), inputs of 4090..65537 bytes whose tokens and quoted spans cross buffer boundaries, and random inputs up to 200 bytes over a wider alphabet (tab, CR, VT, FF, NBSP, $, `, #, non-ASCII). " +
+					"Per input: Split's fields and completeness flag vs the reference; Scanner over a one-byte-at-a-time reader and over fixed and random fragmentations, including readers that return the last bytes together with io.EOF and readers that sometimes return (0, nil) (Next/Text, Complete after the last token, Next stays false and Err stays io.EOF afterwards); Each with early stop; Scanner.Split; Rest called after the k-th token for every k must yield exactly input[offset_k:] and Next must then stay false; a reader that fails with a non-EOF error must surface through Err. Complete inputs without other metacharacters and without unquoted newlines are also split by dash and 'bash +B' (length <= 6 exhaustive). Reset reuse and the pooled Split run concurrently under -race. " +
 					"distinct = the input (enumerated); non-trivial = it contains a quote or backslash",
 				Required:     []string{"inputs", "state_class_pairs_covered_of_42", "scanner_fragmentations", "rest_calls", "shell_inputs_dash", "shell_inputs_bash", "incomplete_inputs", "all_byte_values", "concurrent_splits", "long_inputs", "rest_after_reset"},
 				Exhaustive:   true,
@@ -173,10 +173,11 @@ func refTexts(ts []refTok) []string {
 
 // chunkReader delivers its data in pieces of the given sizes (cyclically).
 type chunkReader struct {
-	data  string
-	sizes []int
-	k     int
-	fail  error // returned instead of io.EOF when the data is exhausted, if non-nil
+	data    string
+	sizes   []int // a size of 0 makes that call return (0, nil), which io.Reader permits
+	k       int
+	fail    error // returned instead of io.EOF when the data is exhausted, if non-nil
+	dataEOF bool  // return the final bytes together with the error, as io.Reader permits
 }
 
 func (r *chunkReader) Read(p []byte) (int, error) {
@@ -191,6 +192,12 @@ func (r *chunkReader) Read(p []byte) (int, error) {
 	n = min(n, len(p), len(r.data))
 	copy(p, r.data[:n])
 	r.data = r.data[n:]
+	if r.dataEOF && len(r.data) == 0 && n > 0 {
+		if r.fail != nil {
+			return n, r.fail
+		}
+		return n, io.EOF
+	}
 	return n, nil
 }
 
@@ -223,13 +230,13 @@ func (m *c16mon) check(in string, r *rand.Rand, deep bool) bool {
 			return
 		}
 		// Scanner over fragmenting readers
-		frags := [][]int{{1}, {2}, {1, 3}, {7}, {4096}}
+		frags := [][]int{{1}, {2}, {1, 3}, {7}, {4096}, {1, 0, 2, 0, 0}, {3, 0}}
 		if r != nil {
 			frags = append(frags, []int{1 + r.IntN(5), 1 + r.IntN(3), 1 + r.IntN(9)})
 		}
 		for fi, sizes := range frags {
 			var sc *shell.Scanner
-			rd := &chunkReader{data: in, sizes: sizes}
+			rd := &chunkReader{data: in, sizes: sizes, dataEOF: fi%3 == 1}
 			if fi%2 == 0 {
 				sc = shell.NewScanner(rd)
 			} else {
@@ -428,7 +435,7 @@ func runC16(c *fw.Ctx) {
 	m := &c16mon{c: c}
 	alpha := []byte{'a', ' ', '\n', '\\', '\'', '"', 'b'}
 	light := c.Flavour == "race"
-	L := c.Pick(7, 8)
+	L := c.Pick(7, 9)
 	if light {
 		L = 5
 	}
